@@ -15,7 +15,7 @@ from vmm.ref import diag as R
 ID = 'C05'
 RULE = ('Hypothesis pretest pairs (x, y), n in 3..60, y and x = loadings on a common random-walk factor + dyadic noise '
         '(|r| from ~0 to ~0.9999), n_test 1..30, sig/power in (0.02,0.98), flevel in [0.9,0.999]; for each: closed form R4, '
-        'the constructed-experiment differential against tbr.TBR.summary(level=sig, tails=1), 2^k scaling, level shifts, '
+        'the constructed-experiment differential against tbr.TBR.summary(level=sig, tails=1) (a third of the cases also with the frame in whole units, int64 vs float64), 2^k scaling, level shifts, '
         'monotonicity/evenness in rho on a grid; in half of the cases the metamorphic variants are fed to the same object through its setters. Non-trivial = residual sd > 1e-6 sd(y) and n >= 4; distinct by spec hash.')
 BUDGET = {'quick': 1600, 'thorough': 100000}
 FLOOR = {'quick': 600, 'thorough': 30000}
@@ -187,6 +187,21 @@ def run(spec):
       viol.append(('C05:post-analysis-estimate', dict(det, estimate=float(row['estimate']), want=float(I))))
     if not util.close(row['lower'], tpow * scale, tol, atol=1e-7 * scale):
       viol.append(('C05:post-analysis-lower-bound', dict(det, lower=float(row['lower']), want=tpow * scale)))
+    if spec['sb'] % 3 == 0:
+      # the same experiment recorded in whole units: an integer-typed response column must give the post-analysis
+      # quantities of the same numbers held as floats
+      whole = np.round(frame['response'].to_numpy() * 8.0)
+      f_int = frame.assign(response=whole.astype('int64'))
+      f_flt = frame.assign(response=whole.astype('float64'))
+      rows = []
+      for fr in (f_int, f_flt):
+        mi = tbr.TBR(use_cooldown=False)
+        mi.fit(fr, 'response')
+        rows.append(mi.summary(level=spec['sig'], tails=1).iloc[-1])
+      for col in ('estimate', 'scale', 'lower', 'precision'):
+        if not util.close(float(rows[0][col]), float(rows[1][col]), 1e-10, atol=1e-10 * abs(float(rows[1]['scale']))):
+          viol.append(('C05:integer-typed-frame:%s' % col, dict(det, as_int=float(rows[0][col]), as_float=float(rows[1][col]))))
+      cls.append('integer-typed-frame')
   except Exception as e:  # pylint: disable=broad-except
     viol.append((core.crash_kind('C05', e), dict(det, exc=str(e)[:200])))
   return {'viol': viol, 'nt': n >= 4, 'cls': cls, 'dc': 0}
